@@ -1,4 +1,5 @@
 import Verif.Proofs.FlattenNames
+import Verif.Proofs.FlattenImport
 
 /-!
 # C03 — the phases that create definitions only append fresh names (model of the phases)
@@ -34,6 +35,16 @@ theorem namePointers_appends_fresh (fc : Facts) (hf : FactsOK fc) (x : Ext) (o :
       ∀ k ∈ Flatten.defNames s.doc, foldOf x k ≠ foldOf x n) ∧
     FreshExt (foldOf x) (Flatten.defNames s.doc) (Flatten.defNames s'.doc) := by
   have hx := namePointers_fresh fc hf x o s s' h
+  exact ⟨hx.prefix, hx.added_fresh, hx⟩
+
+/-- import phase (definitions brought in from auxiliary documents, renamed `…OAIGen` on conflict) -/
+theorem importReferences_appends_fresh (fc : Facts) (hf : FactsOK fc) (x : Ext) (o : Opts) (fuel : Nat) (s s' : St)
+    (h : importReferences fc x o fuel s = .ok s') :
+    Flatten.defNames s.doc <+: Flatten.defNames s'.doc ∧
+    (∀ n ∈ (Flatten.defNames s'.doc).drop (Flatten.defNames s.doc).length,
+      ∀ k ∈ Flatten.defNames s.doc, foldOf x k ≠ foldOf x n) ∧
+    FreshExt (foldOf x) (Flatten.defNames s.doc) (Flatten.defNames s'.doc) := by
+  have hx := Proofs.FlattenImport.importReferences_fresh fc hf x o fuel s s' h
   exact ⟨hx.prefix, hx.added_fresh, hx⟩
 
 /-- non-vacuity of `FreshExt`: `["pet"]` extended by `petOwner` (fresh) — and not by `PET` -/
